@@ -50,7 +50,7 @@ TEXTS = {
     'C04': ('Definitional postconditions against spec functions written from the cited definitions: P = mm/|est|, R = mm/|ref|, F_beta; tempo hits and P-score; key table; '
             'multipitch formulas; melody frame sums; alignment pc; transcription criteria relations. mm is the size of a maximum matching of the stated relation '
             '(matcher bodies: bounded).', None),
-    'C05': ('Discharged: the chroma-wrapped (circular) distance predicate is exactly min(|a-b|, n-|a-b|) on residues with range [0, n/2]; the reference duration that the offset tolerance is a ratio of (util.intervals_to_durations) is exactly end - start. The matcher bodies '
+    'C05': ('Discharged: the chroma-wrapped (circular) distance predicate is exactly min(|a-b|, n-|a-b|) on residues with range [0, n/2]; the reference duration that the offset tolerance is a ratio of (util.intervals_to_durations) is exactly end - start; the hit counts behind the transcription precision / recall (onset, offset, overlap, velocity variant) are the size of a maximum matching of the documented note relation. The matcher bodies '
             '(Hopcroft-Karp, hit windows, match_events, note matchers) are bounded: brute-force maximum matching on exhaustive small scopes; their contract is what all callers are verified against.', None),
     'C06': ('Swap lemmas from the callee contracts plus the transposition fact of maximum matchings: onset, beat, detection, transcription onset-only / no-offset, '
             'T-/L-measure role exchange, overseg/underseg forwarding (EUF), F symmetric at beta=1. Segment indices and pattern: bounded.', None),
